@@ -174,7 +174,9 @@ local macro "local_tac" : tactic =>
       | (apply Prog.Local.set; (first | rfl | assumption | skip))
       | (apply Prog.Local.remove; (first | rfl | assumption | skip))
       | intro _
-      | split))
+      | split
+      | (dsimp only; done)
+      | dsimp only))
 
 /-- TCP uptime tracker: a segment touches only the entry of its own (directed connection, role). -/
 theorem tcp_local {U : Type} (P : UptimeParams U) (fc : Seg → Bool) (s : Seg) :
@@ -278,23 +280,14 @@ private theorem finish_local (rm : FlowKey) (hrm : Pk rm) (f : TcpFlow) (s : Seg
 private theorem withFlow_local (stored : FlowKey) (h1 : Pk stored) (isC : Bool)
     (f : TcpFlow) (s : Seg) : (httpWithFlow H stored isC f s).Local Pk := by
   unfold httpWithFlow
-  split
-  · exact .ret _
-  · split
-    · split
-      · refine .set _ _ _ h1 (tryReq_local H hs Pk _ _ (fun q => ?_))
-        cases q
-        · exact finish_local Pk stored h1 _ _ _
-        · exact .set _ _ _ h1 (finish_local Pk stored h1 _ _ _)
-      · exact finish_local Pk stored h1 _ _ _
-    · split
-      · split
-        · refine .set _ _ _ h1 (tryResp_local H hs Pk _ _ (fun q => ?_))
-          cases q
-          · exact finish_local Pk stored h1 _ _ _
-          · exact .set _ _ _ h1 (finish_local Pk stored h1 _ _ _)
-        · exact finish_local Pk stored h1 _ _ _
-      · exact finish_local Pk stored h1 _ _ _
+  repeat (first
+    | exact .ret _
+    | exact finish_local Pk stored h1 _ _ _
+    | (refine .set _ _ _ h1 ?_)
+    | (refine tryReq_local H hs Pk _ _ (fun q => ?_); cases q)
+    | (refine tryResp_local H hs Pk _ _ (fun q => ?_); cases q)
+    | split
+    | dsimp only)
 
 end
 
